@@ -1,20 +1,23 @@
-"""C02 — mutating an unshared collection is in place: no hidden copies (kernel level; see props/cow.py).
+"""C02 — mutating an unshared collection is in place: no hidden copies (kernel level; see props/cow.py, props/cow2.py).
 
 The observable is the clone log of the Rc model while the real MIR of the mutation kernels runs: at strong count 1 no
 make_mut clone and no deep clone happens and the allocation is kept; with aliases at most one clone per shared level on the
 first step and none when the same step is repeated.  A counterexample is replayed natively as a scaling measurement."""
 from lib.common import *
-from props import cow
+from props import cow, cow2
 
 PROP = 'C02'
-def run_shape(item, ob): cow.run_shape(item, ob, 'C02')
+def run_shape(item, ob):
+    if item[0] in ('dict', 'str'): cow2.run_shape(item, ob, 'C02')
+    else: cow.run_shape(item, ob, 'C02')
 
 def main(tier, seed, t0):
-    cow.MIR, th = load_mir('on')
-    items = cow.items_for(tier, seed)
+    cow.MIR, th = load_mir('on'); cow2.MIR = cow.MIR
+    items = cow.items_for(tier, seed) + cow2.items_for(tier, seed)
     merged, per = pmap(run_shape, items, tier)
     return finish(PROP, tier, seed, merged, t0, th=th,
-        kernels=['eval.rs: set_index (list / nested / vector / bytes arms, every-slice arm), modify_existing_index (list arms)', 'core.rs: Obj::try_pop, Obj::try_remove_index, pythonic_mut'],
-        bounds={'targets': 'list of 3, nested list 2x2, vector of 3, bytes of 3, list of 2 vectors', 'aliases': 'none / outer / inner / both', 'index path': 'every integer in both representations', 'steps': 'two consecutive identical steps'},
-        outside=['allocator / Vec growth behaviour (std)', 'the evaluator statement paths that hand the variable cell to these kernels (OpAssign drop-before-call ordering)', 'builtins taking arguments by value (append, ++, |., ...)', 'dict and struct arms'],
+        kernels=['eval.rs: set_index (list / nested / vector / bytes / dict / string arms, every-slice arm, LHS-dropping call), modify_existing_index (list and dict arms)', 'core.rs: Obj::try_pop, Obj::try_remove_index, pythonic_mut'],
+        bounds={'targets': 'list of 3, nested list 2x2, vector of 3, bytes of 3, list of 2 vectors, dict with two list rows (with/without default), string "abc"', 'aliases': 'none / outer / inner / both',
+                'index path': 'every integer in both representations; every dict key', 'steps': 'two consecutive identical steps'},
+        outside=['allocator / Vec growth behaviour (std)', 'the evaluator statement paths that hand the variable cell to these kernels (assign_respecting_type, OpAssign drop-before-call ordering)', 'builtins taking arguments by value (append, ++, |., ...)', 'struct arms'],
         assumptions=['Rc::make_mut clones iff the strong count is > 1 (std contract); one failing mutation of a shared list may clone once (allowed: "at most once per additional holder")'])
